@@ -96,10 +96,17 @@ def _unit_axis_form(prog, fi, e, params, at=None):
 def pairing(prog, run, fi, f):
     pos, _, _, _ = astq.params_of(fi.node)
     p_all, p_ref = pos[0], pos[1]
-    csds = [c for c, nm in astq.calls_resolved(prog, fi, lambda n: n == "scipy.signal.csd")]
-    if not csds:
-        run.ob("R-pairing", fi.qual, "csd", False, "no scipy.signal.csd call in SD_est", witness="missing", file=f)
-    for i, c in enumerate(csds):
+    mpar = "method" if "method" in pos else (pos[4] if len(pos) > 4 else None)
+    # judged per estimator (the two methods may share one csd call site or have one each)
+    sites = []
+    for meth in ("per", "cor"):
+        pf = astq.PrunedFn(fi, {mpar: meth}) if mpar is not None else fi
+        found = [c for c, nm in astq.calls_resolved(prog, pf, lambda n: n == "scipy.signal.csd")]
+        if not found:
+            run.ob("R-pairing", fi.qual, "csd", False, f"no scipy.signal.csd call in SD_est for method '{meth}'", witness="missing", file=f, config=f"method={meth}")
+        sites += [(meth, pf, c) for c in found]
+    full = fi
+    for i, (meth, fi, c) in enumerate(sites):
         x0 = astq.kwarg(c, "x", 0)
         y0 = astq.kwarg(c, "y", 1)
         if c.args and isinstance(c.args[0], ast.Starred):
@@ -108,7 +115,7 @@ def pairing(prog, run, fi, f):
             x0, y0 = (t.elts[0], t.elts[1]) if isinstance(t, ast.Tuple) and len(t.elts) == 2 else (None, None)
         a = _unit_axis_form(prog, fi, x0, pos, c) if x0 is not None else None
         b = _unit_axis_form(prog, fi, y0, pos, c) if y0 is not None else None
-        cfg = f"csd#{i}"
+        cfg = f"method={meth}"
         if a is None or b is None:
             run.ob("R-pairing", fi.qual, "operands", None, f"operand form not recognised: `{astq.src(x0) if x0 is not None else None}`, `{astq.src(y0) if y0 is not None else None}`", file=f, node=c, config=cfg)
             continue
